@@ -280,9 +280,10 @@ class Sandbox(object):
 class Env(object):
     """Per-worker: scratch sandbox + live session + monitor."""
 
-    def __init__(self):
+    def __init__(self, codepage=None):
         fast.no_sleep()
         fast.quiet()
+        self.codepage = codepage
         self.scr = H.Scratch('pcbverif_c27_')
         self.box = Sandbox(self.scr.path)
         self.mon = fsmon.MONITOR.install()
@@ -303,9 +304,13 @@ class Env(object):
                 self.session.close()
             except Exception:
                 pass
+        kw = {}
+        if self.codepage:
+            from pcbasic.data import read_codepage
+            kw['codepage'] = read_codepage(self.codepage)
         self.session = H.new_session(
             devices={'C': self.box.mount, 'E': self.box.emount, 'Z': None}, current_device='C:',
-            horizon=200)
+            horizon=200, **kw)
         impl = self.session._impl
         try:
             c = impl.files.get_device(b'C:')
@@ -370,8 +375,11 @@ class Env(object):
 class env(object):
     """with env() as e: per-shard sandbox + session, removed on exit."""
 
+    def __init__(self, codepage=None):
+        self.codepage = codepage
+
     def __enter__(self):
-        self.e = Env()
+        self.e = Env(self.codepage)
         return self.e
 
     def __exit__(self, *a):
@@ -457,6 +465,39 @@ def work_stmt(shard):
             for kind, _ in KINDS:
                 run_case(part, e, cfg, kind, path)
     part.sample({'cfg': cfg, 'kind': 'FILES', 'path': paths[0]})
+    return part
+
+
+# double-byte codepages: byte pairs without a mapping are dropped when a name is converted for the host file system;
+# what is left of a component may be '..', '.' or nothing
+DBCS_CODEPAGE = '932'
+DBCS_JUNK = b'\x81\xad'
+DBCS_COMPONENTS = [b'..' + DBCS_JUNK, DBCS_JUNK + b'..', b'.' + DBCS_JUNK, DBCS_JUNK, b'.' + DBCS_JUNK + b'.', b'SUB', b'..',
+                   b'SENTINEL.TXT', b'A.TXT', b'SIBLING', b'\x83\x41']
+
+
+def dbcs_paths():
+    import itertools
+    out = []
+    for n in (1, 2, 3):
+        for seq in itertools.product(DBCS_COMPONENTS, repeat=n):
+            if not any(DBCS_JUNK in c for c in seq):
+                continue
+            if n == 3 and not (DBCS_JUNK in seq[0] or DBCS_JUNK in seq[1]):
+                continue
+            for pfx in (b'', b'E:\\'):
+                out.append(pfx + b'\\'.join(seq))
+    return out
+
+
+def work_dbcs(shard):
+    cfg, paths = shard
+    part = Partial()
+    with env(DBCS_CODEPAGE) as e:
+        for path in paths:
+            for kind, _ in KINDS:
+                run_case(part, e, cfg, kind, path)
+    part.sample({'cfg': cfg, 'kind': 'CHDIR', 'path': paths[0], 'codepage': DBCS_CODEPAGE})
     return part
 
 
@@ -567,6 +608,10 @@ def legs(ctx):
     out.append(Leg('name', shards, work_name, exhaustive=True,
                    bound='NAME p AS q for all %d ordered pairs of %d paths x %d cwd configurations' % (
                        len(pairs), len(np_), len(CFGS))))
+    dp = dbcs_paths()
+    out.append(Leg('dbcs', [(cfg, ch) for cfg in (0, 2) for ch in chunked(dp, 60)], work_dbcs, exhaustive=True,
+                   bound='codepage %s: %d paths of 1..3 components over %d (with byte pairs the codepage does not map, next to dots) x %d '
+                         'statement kinds x 2 cwd configurations' % (DBCS_CODEPAGE, len(dp), len(DBCS_COMPONENTS), len(KINDS))))
     depth = 6
     out.append(Leg('chdir', [(ctx.quick, depth)], work_chdir, exhaustive=True, serial=True,
                    bound='BFS over CHDIR histories, %d CHDIR arguments per state, depth <= %d or fixed point '
@@ -582,6 +627,6 @@ def replay(ctx, leg, case):
             for k, w in viols:
                 part.violation(k, w, case)
     else:
-        with env() as e:
+        with env(DBCS_CODEPAGE if leg == 'dbcs' else None) as e:
             run_case(part, e, case['cfg'], case['kind'], case['path'], case.get('path2'))
     return part
